@@ -31,6 +31,7 @@ func init() {
 			{ID: "C19.R3", Doc: "container getVal returns the registered ego", Run: c19R3},
 			{ID: "C19.R4", Doc: "parseVal returns Object/List operands unchanged", Run: c19R4},
 			{ID: "C19.R5", Doc: "no method hands its bare receiver to a callback, a typed slice, a result container or a comparison hand-out", Run: c19R5},
+			{ID: "C19.R6", Doc: "a stored element is never tested for the concrete container types (*list, *object): a derived value is neither, the container interfaces / TypeOf decide what is a container", Run: c19R6},
 		},
 	})
 }
@@ -163,6 +164,20 @@ func c19R2(c *Ctx) {
 				} else {
 					ob.Fail("ptr of %s is written outside a pure registration method (value origin %s)", tn, e.Value)
 				}
+			}
+		}
+		// no whole-struct assignment into an existing container (it carries another container's ptr, or nil, along)
+		for _, fn := range a.fns {
+			for _, e := range a.eff[fn] {
+				if e.Kind != "store.struct" {
+					continue
+				}
+				st := e.Instr.(*ssa.Store)
+				if p, ok := st.Addr.Type().(*types.Pointer); !ok || !isNamed(p.Elem(), ct.Named) {
+					continue
+				}
+				n++
+				c.Ob("C19.R2", "struct-store/"+a.FuncName(fn), e.Pos).Fail("a whole %s struct is assigned into an existing container: its registered ego is overwritten with that of the source (or nil), so Ego() and every fluent method stop returning the derived value", tn)
 			}
 		}
 		// Ego returns ptr
@@ -468,6 +483,44 @@ func c19R5(c *Ctx) {
 		walk(fn)
 	}
 	c.R.Floor("C19.R5", n, 30)
+}
+
+// c19R6: type tests applied to values loaded from a spine. A registered derived value (a user struct embedding List/Object) is
+// stored as itself; a test for *list/*object fails for it, so code that decides "is this element a container" that way treats
+// derived containers as scalars (replaces them in SetTF, shares them in copy, …).
+func c19R6(c *Ctx) {
+	a := c.E3()
+	n := 0
+	for _, fn := range a.fns {
+		var walk func(f *ssa.Function)
+		walk = func(f *ssa.Function) {
+			k := 0
+			for _, b := range f.Blocks {
+				for _, in := range b.Instrs {
+					ta, ok := in.(*ssa.TypeAssert)
+					if !ok {
+						continue
+					}
+					k++
+					if a.get(ta.X)&oELEM == 0 {
+						continue
+					}
+					n++
+					if !a.isContainerPtr(ta.AssertedType) {
+						continue
+					}
+					c.Ob("C19.R6", "element-type-test/"+a.FuncName(f)+"#"+itoa(k), ta.Pos()).Fail("a stored element is tested for the concrete type %s: a derived container (registered outer value) is not one, so it is treated as a non-container here", shortType(ta.AssertedType))
+				}
+			}
+			for _, an := range f.AnonFuncs {
+				walk(an)
+			}
+		}
+		walk(fn)
+	}
+	ob := c.Ob("C19.R6", "element-type-tests", token.NoPos)
+	ob.Ok("%d type tests on stored elements examined; none asks for *list or *object", n)
+	c.R.Floor("C19.R6", n, 20)
 }
 
 func isIfaceSlice(t types.Type) bool {
